@@ -45,6 +45,22 @@ fn one_run(a: &Args, seed: u64, round: u64, t: &mut Trace, stats: &mut Value) ->
         emit_auto(t, &st, &o, &mut next_tx);
         for st in populate_direct(&mut r, tb, 6) { let o = exec(&db, &st.sql()); if o.is_ok() { note_insert(tb, &st); } emit_auto(t, &st, &o, &mut next_tx); }
     }
+    // Every other round the schedule is perturbed inside the engine: the yield-point hook (feature verif) runs before and
+    // after every page latch is taken and yields or sleeps there according to a seeded counter, so that the windows around
+    // latch hand-over (Latch.tla: Acquire / Release of parent and child) are entered by other threads far more often than
+    // the OS scheduler alone would allow.
+    let perturbed = round % 2 == 1;
+    let yields = Arc::new(AtomicU64::new(0));
+    if perturbed {
+        let ctr = Arc::new(AtomicU64::new(seed.wrapping_mul(7919).wrapping_add(round)));
+        let y = yields.clone();
+        axmosdb::verif::set_yield_hook(Some(Box::new(move |_p| {
+            let x = ctr.fetch_add(0x9E37_79B9_7F4A_7C15, Ordering::Relaxed);
+            let h = ((x ^ (x >> 29)).wrapping_mul(0xBF58_476D_1CE4_E5B9) >> 40) % 64;
+            if h < 10 { y.fetch_add(1, Ordering::Relaxed); std::thread::yield_now(); }
+            else if h == 10 { y.fetch_add(1, Ordering::Relaxed); std::thread::sleep(std::time::Duration::from_micros(150)); }
+        })));
+    }
     // the clients
     let seq = Arc::new(AtomicU64::new(1));
     let stop = Arc::new(AtomicBool::new(false));
@@ -58,6 +74,8 @@ fn one_run(a: &Args, seed: u64, round: u64, t: &mut Trace, stats: &mut Value) ->
         let ro = ro.clone();
         let mut r = util::rng(seed * 1000 + round, 100 + k as u64);
         let sid = k as u32 + 1;
+        let shared_read = a.flag("shared-read");
+        let nwriters = writers;
         handles.push(std::thread::Builder::new().stack_size(32 << 20).spawn(move || {
             let push = |e: Ev| { let n = seq.fetch_add(1, Ordering::SeqCst); log.lock().unwrap().push((n, e)); };
             for _ in 0..steps {
@@ -68,7 +86,8 @@ fn one_run(a: &Args, seed: u64, round: u64, t: &mut Trace, stats: &mut Value) ->
                     None => {
                         // now and then a statement that panics inside the executor (division by zero, recorded finding): it must come back as an
                         // error while other clients' statements are queued behind it, and the pool must keep all its workers
-                        let q = if r.random_range(0..8) == 0 { Stmt::Opaque { sql: format!("SELECT {0}.id / 0 FROM {0}", ro[0].def.name), ro: true } } else { Stmt::Select(rand_select(&mut r, &ro, true)) };
+                        // --shared-read (witness mode of the finding ReaderWriterLatchDeadlock): readers scan the tables the writers write
+                        let q = if shared_read && r.random_range(0..2) == 0 { Stmt::Opaque { sql: format!("SELECT COUNT(*) FROM w{}", r.random_range(1..=nwriters)), ro: true } } else if r.random_range(0..8) == 0 { Stmt::Opaque { sql: format!("SELECT {0}.id / 0 FROM {0}", ro[0].def.name), ro: true } } else { Stmt::Select(rand_select(&mut r, &ro, true)) };
                         let o = exec(&db, &q.sql()); push(Ev::Auto(q, o));
                     }
                     Some(tb) => {
@@ -114,6 +133,9 @@ fn one_run(a: &Args, seed: u64, round: u64, t: &mut Trace, stats: &mut Value) ->
     while done.load(Ordering::SeqCst) < (writers + readers) as u64 && t0.elapsed() < limit { std::thread::sleep(std::time::Duration::from_millis(5)); }
     let hung = done.load(Ordering::SeqCst) < (writers + readers) as u64;
     stop.store(true, Ordering::SeqCst);
+    axmosdb::verif::set_yield_hook(None);
+    stats["perturbed_rounds"] = json!(stats["perturbed_rounds"].as_u64().unwrap_or(0) + perturbed as u64);
+    stats["injected_yields"] = json!(stats["injected_yields"].as_u64().unwrap_or(0) + yields.load(Ordering::Relaxed));
     if !hung { for h in handles { let _ = h.join(); } }
     // merge in completion order
     let mut evs: Vec<(u64, Ev)> = std::mem::take(&mut *log.lock().unwrap());
